@@ -111,28 +111,36 @@ theorem c13_views_inside_all (s : Bytes) :
     ∀ u, parse s = .ok u → u.inside s.length :=
   ⟨parse_terminates s, fun u h => parse_inside s u h⟩
 
-/-! ## the side conditions of `Comp.ok` are needed: what uri.c does outside them -/
+/-! ## shapes that older revisions of uri.c misparsed (repaired by 7bf9897 and 3dbc364) -/
 
-/-- A scheme-less text whose first ':' is followed by '/' is taken to have a scheme:
-"h/a:/b" (host "h", path "/a:/b") is refused. -/
-theorem c13_witness_schemeless_colon_slash :
-    assemble { host := b "h", path := b "/a:/b" } = b "h/a:/b" ∧ refused (parse (b "h/a:/b")) = true := by
-  decide
+/-- A tuple without scheme needs no extra condition: under `Comp.ok` the text never looks as if it
+began with a scheme. -/
+theorem c13_schemeless_never_scheme_like (c : Comp) (h : c.ok = true) : noSchemeLike c.restText = true :=
+  noSchemeLike_rest (okFacts h)
 
-/-- … and "h?u=x://y" (host "h", query "u=x://y") parses with scheme "h?u=x" and authority "y". -/
-theorem c13_witness_schemeless_query_url :
+/-- ":/" in the path of a text without scheme: "h/a:/b" is host "h", path "/a:/b". -/
+example : Comp.ok { host := b "h", path := b "/a:/b" } = true ∧
+    assemble { host := b "h", path := b "/a:/b" } = b "h/a:/b" ∧
+    (parse (b "h/a:/b")).toOption.map
+      (fun u => (u.scheme, optBytes u.host (b "h/a:/b"), optBytes u.path (b "h/a:/b"))) =
+      some (none, b "h", b "/a:/b") := by decide
+
+/-- "://" in the query of a text without scheme: "h?u=x://y" is host "h", query "u=x://y". -/
+example : Comp.ok { host := b "h", query := some (b "u=x://y") } = true ∧
     assemble { host := b "h", query := some (b "u=x://y") } = b "h?u=x://y" ∧
-    (parse (b "h?u=x://y")).toOption.map (fun u => (optBytes u.scheme (b "h?u=x://y"), optBytes u.host (b "h?u=x://y"))) =
-      some (b "h?u=x", b "y") := by
-  decide
+    (parse (b "h?u=x://y")).toOption.map
+      (fun u => (u.scheme, optBytes u.host (b "h?u=x://y"), optBytes u.query (b "h?u=x://y"))) =
+      some (none, b "h", b "u=x://y") := by decide
 
-/-- The authority ends at the first '/' even when a '?' comes first: "s://h?a=/b" (scheme "s",
-host "h", no path, query "a=/b") parses with host "h?a=" and path "/b" and no query. -/
-theorem c13_witness_empty_path_query_slash :
+/-- empty path and '/' in the query: "s://h?a=/b" is host "h", no path, query "a=/b". -/
+example : Comp.ok { scheme := some (b "s"), host := b "h", query := some (b "a=/b") } = true ∧
     assemble { scheme := some (b "s"), host := b "h", query := some (b "a=/b") } = b "s://h?a=/b" ∧
     (parse (b "s://h?a=/b")).toOption.map
-      (fun u => (optBytes u.host (b "s://h?a=/b"), optBytes u.path (b "s://h?a=/b"), u.query)) =
-      some (b "h?a=", b "/b", none) := by
+      (fun u => (optBytes u.host (b "s://h?a=/b"), u.path, optBytes u.query (b "s://h?a=/b"))) =
+      some (b "h", none, b "a=/b") := by decide
+
+/-- "://" in the query with a scheme present -/
+example : Comp.ok { scheme := some (b "s"), host := b "h", path := b "/p", query := some (b "u=x://y/z") } = true := by
   decide
 
 /-- port bound: 2^32−1 is accepted, 2^32 and a 20-digit number beyond 2^64 are refused -/
